@@ -42,6 +42,9 @@ What is a parameter / abstract
 * The limit check of `AppendRegular` runs in its own read transaction before the write (C17
   `check-outside-tx`); here both run in one step.
 
+Repairs of the message commands the model follows: 8be31cc, b3abd4e (index, via the call-site facts), 6649146, 12c5535,
+5288904, 071c9b5, 45f4598 (index: `RemoveFlagFromMessages … COLLATE NOCASE`), 7feeba5, 971d4f3 (`actionMove`).
+
 Core Lean only.
 -/
 import GluonModel.Model.DB
@@ -214,15 +217,18 @@ def actionAdd (E : Env) (pairs : List (MessageId × RemoteId)) (mb : MailboxId) 
 
 /-- `actionMoveMessages` -/
 def actionMove (E : Env) (pairs : List (MessageId × RemoteId)) (src dst : MailboxId) : ATx (List Upd × List SnapRow) := do
-  if src == dst then
-    let ups ← actionRemoveUnchecked E pairs dst
-    let (ups', rows) ← actionAdd E pairs dst
-    return (ups ++ ups', rows)
-  let inDst ← liftRead (mailboxFilterContains E.sites · dst pairs)
-  let rem := pairs.filter fun p => inDst.contains p.1
-  let ups ← (if !rem.isEmpty then actionRemoveUnchecked E rem dst else pure [])
+  -- fixes 7feeba5, 971d4f3: only messages still in the source are moved (the session's view may still show a message
+  -- that was expunged elsewhere); everything below is restricted to them
   let inSrc ← liftRead (mailboxFilterContains E.sites · src pairs)
   let toMove := pairs.filter fun p => inSrc.contains p.1
+  if src == dst then
+    if toMove.isEmpty then return ([], [])
+    let ups ← actionRemoveUnchecked E toMove dst
+    let (ups', rows) ← actionAdd E toMove dst
+    return (ups ++ ups', rows)
+  let inDst ← liftRead (mailboxFilterContains E.sites · dst toMove)
+  let rem := toMove.filter fun p => inDst.contains p.1
+  let ups ← (if !rem.isEmpty then actionRemoveUnchecked E rem dst else pure [])
   -- connector.MoveMessages: succeeds, shouldRemoveOldMessages = true
   let (rows, ups') ← moveMessagesFromMailbox E src dst toMove (toMove.map (·.1)) true
   return (ups ++ ups', rows)
